@@ -11,6 +11,13 @@ F = ["rcgen::string::{PrintableString,Ia5String,TeletexString,BmpString,Universa
 PRINTABLE_IDIOM = "1"  # TODO: determined by engine M from the MIR of write_distinguished_name
 
 
+def run_mir(tier, seed):
+    import sys, pathlib
+    sys.path.insert(0, str(pathlib.Path(__file__).resolve().parent.parent.parent / "mirsmt"))
+    import mir_check, dn
+    return mir_check.run_obligations([dn.ob_write_dn])
+
+
 def spec(tier, seed):
     qs = []
     ns = [1, 2] if tier == "quick" else [1, 2, 3]
